@@ -367,7 +367,7 @@ def kernel_reservation_drop(fns):
         ob.must_hold(zeroed or "(_1.1: usize) = const 0_usize" in g.text, "commit() sets amount to 0")
         drops = [e for e in p.events if e.kind == "drop"]
         ob.must_hold(len(drops) <= 1, "commit drops the reservation once")
-    return ob.result(it, witness=None)
+    return ob.result(it, witness="c13_memory_limit_model")
 
 
 def kernel_release_memory(fns):
@@ -694,11 +694,11 @@ def site_delete(fns):
         ob.must_hold(bool(events(p, "SkipMap::remove") or [e for e in p.events if e.kind == "call" and e.callee.endswith("::remove") and "SkipMap" in e.callee]),
                      "ordered index entry removed")
     ob.must_hold(reached >= 1, "the removal site was reached")
-    return ob.result(it, witness=None)
+    return ob.result(it, witness=[("timestamp", "c12_version_clock_model"), ("", "c13_model_accounting_and_reopen")])
 
 
 def c07(fns, tier, env):
-    out = [site_update_record(fns, "::replace_record_if_current", False, file_hint="src/core/store/atomic.rs", ts_tuple_local="_5", identity_local="_3", witness=[("(f)", "c07_lost_increment")] + UPDATE_WITNESSES),
+    out = [site_update_record(fns, "::replace_record_if_current", False, file_hint="src/core/store/atomic.rs", ts_tuple_local="_5", identity_local="_3", witness=[("(f)", "c07_lost_increment+c07_aba_same_timestamp")] + UPDATE_WITNESSES),
            site_update_record(fns, "::update_record_with_ttl", False),
            site_delete(fns), site_atomic_increment(fns), site_compare_and_swap(fns), site_json_patch(fns)]
     return finalize(out, env)
@@ -1050,11 +1050,20 @@ def site_atomic_increment(fns):
             ob.must_hold(len([x for x in commits if idx_of(p, x) > idx_of(p, e)]) == 1, "reservation committed after creation")
             ob.must_hold(len([x for x in events(p, "::insert_into_tree") if idx_of(p, x) > idx_of(p, e)]) == 1, "ordered index filled after the hash table")
     ob.must_hold(occ >= 1 and vac >= 1, "both the replace and the create sites were reached")
-    return ob.result(it, witness=[("identity", "c07_lost_increment"), ("pointer-identical", "c07_lost_increment"), ("", None)])
+    return ob.result(it, witness=[("identity", "c07_lost_increment+c07_aba_same_timestamp"), ("pointer-identical", "c07_lost_increment+c07_aba_same_timestamp"), ("", "c07_lost_increment+c07_aba_same_timestamp")])
 
 
 def sites_c12(fns):
-    return [site_update_ttl(fns), site_compare_and_swap(fns), site_atomic_increment(fns), site_json_patch(fns)]
+    # "an explicit timestamp carried by a call that fails is never absorbed into the clock": the validate -> reserve -> publish
+    # obligations of every mutating site (shared with C01/C07/C13) place the clock observation after the last fallible step
+    return [site_update_ttl(fns), site_compare_and_swap(fns), site_atomic_increment(fns), site_json_patch(fns),
+            site_update_record(fns, "::update_record_with_ttl", False),
+            site_update_record(fns, "::update_record_with_ttl_bytes", True),
+            site_update_record(fns, "::replace_record_if_current", False, file_hint="src/core/store/atomic.rs", ts_tuple_local="_5", identity_local="_3",
+                               witness=[("(f)", "c07_lost_increment+c07_aba_same_timestamp")] + UPDATE_WITNESSES),
+            site_delete(fns),
+            site_insert_vacant(fns, "::insert_with_timestamp_and_ttl_internal"), site_insert_vacant(fns, "::insert_bytes_with_expiry"),
+            site_insert_vacant(fns, "::insert_if_absent", "src/core/store/atomic.rs", explicit_ts=False)]
 
 
 def site_update_ttl(fns):
@@ -2081,13 +2090,93 @@ def site_write_batch_protocol(fns):
     return ob.result(it, witness=[("journal", "c03_torn_single_block_write"), ("", "c02_acknowledged_value_survives")])
 
 
+# ============================================================================ C20: buffers handed to io_uring are owned by the in-flight registry
+def site_batch_write_buffers(fns):
+    f = mir.find(fns, "::batch_write_inner", "src/storage/io.rs")
+    ob = Ob("site_batch_write_inner_buffers", "DiskIO::batch_write_inner (io_uring path), every MIR path with the chunk loops unrolled once: every buffer put into the in-flight "
+            "registry OWNS its bytes – it is built from AlignedBuffer::new (direct I/O copy) or from BatchWriteData::retain_for_write (a Bytes clone / copy), never a borrow of "
+            "the caller's payload, and the registry's element type carries no lifetime; the pointer and length of every submission entry come from registry slot i "
+            "(InFlightBuffers::get(i).as_ptr()/len()); slot i is marked in flight BEFORE the entry is pushed to the submission queue and marked unqueued again when the push "
+            "fails – so whatever the kernel may still read after an indeterminate failure is memory the registry leaks rather than frees (InFlightBuffers' own drop logic: Kani)",
+            "loops unrolled once (one chunk, one buffer, one submission); io_uring calls havocked", f)
+    it = Interp(f, loop_bound=1, pure=PURE, max_paths=20000)
+    tys = [t for t in f.locals.values() if "InFlightBuffers<" in t]
+    ob.must_hold(bool(tys) and all("PendingWriteBuffer<'" not in t and "&" not in t.split("InFlightBuffers<", 1)[1] for t in tys),
+                 "the in-flight registry holds an owning buffer type (no lifetime / reference in InFlightBuffers<..>): %s" % sorted(set(tys))[:2])
+    pushes = subs = 0
+    for p in it.run():
+        ob.paths += 1
+        if p.status == "truncated":
+            ob.truncated += 1
+        regs = [e for e in p.events if e.kind == "call" and e.callee.endswith("InFlightBuffers::with_capacity")]
+        owning = [e for e in p.events if e.kind == "call" and (e.callee.endswith("AlignedBuffer::new") or e.callee.endswith("::retain_for_write"))]
+        borrowed = [e for e in p.events if e.kind == "call" and (e.callee.endswith("::as_slice") or e.callee.endswith("::as_ref") or e.callee.endswith("::deref"))]
+        for e in p.events:
+            if e.kind == "call" and e.callee.endswith("InFlightBuffers::push"):
+                pushes += 1
+                buf = it.as_u(e.args[1])
+                pay = [it.ctx.uf("proj_%s_0" % v, [U], U)(buf) for v in ("Aligned", "Shared", "Borrowed", "Owned")]
+                src_ok = False
+                for o in owning:
+                    if idx_of(p, o) > idx_of(p, e):
+                        continue
+                    cands = [it.as_u(o.ret), it.ctx.uf("proj_Ok_0", [U], U)(it.as_u(o.ret))]
+                    for pl in pay:
+                        for c_ in cands:
+                            ok_, _ = it.entails(e.pc, pl == c_)
+                            src_ok = src_ok or ok_
+                    # AlignedBuffer::new(..)? goes through Try::branch: the Continue payload
+                    for b in [x for x in p.events if x.kind == "call" and x.callee.endswith("Try>::branch") and z3.is_expr(x.args[0]) and z3.eq(it.as_u(x.args[0]), it.as_u(o.ret))]:
+                        for pl in pay:
+                            ok_, _ = it.entails(e.pc, pl == it.ctx.uf("proj_Continue_0", [U], U)(it.as_u(b.ret)))
+                            src_ok = src_ok or ok_
+                ob.must_hold(src_ok, "a registered buffer is the result of AlignedBuffer::new or retain_for_write (an owning copy/clone), not a view of the caller's data")
+                ob.must_hold(not any(contains(buf, it.as_u(b.ret)) for b in borrowed if not z3.eq(it.as_u(b.ret), it.as_u(b.args[0]))) or src_ok,
+                             "no borrowed slice is stored in the registry")
+                prior = [r for r in regs if idx_of(p, r) < idx_of(p, e)]
+                ob.must_hold(bool(prior) and z3.eq(it.as_u(e.args[0]), it.as_u(prior[-1].ret)), "buffers are registered in this chunk's registry")
+            if e.kind == "call" and e.callee.endswith("opcode::Write::new"):
+                subs += 1
+                by_ret = {str(x.ret): x for x in p.events if x.kind == "call" and getattr(x, "ret", None) is not None}
+                ptr = by_ret.get(str(e.args[1]))
+                if not ob.must_hold(ptr is not None and ptr.callee.endswith("PendingWriteBuffer::as_ptr"), "the submitted pointer is PendingWriteBuffer::as_ptr() of a registry slot"):
+                    continue
+                slot = by_ret.get(str(ptr.args[0]))
+                if not ob.must_hold(slot is not None and slot.callee.endswith("InFlightBuffers::get"), "the submitted buffer is InFlightBuffers::get(i)"):
+                    continue
+                ob.must_hold(contains(e.args[2], [x for x in p.events if x.kind == "call" and x.callee.endswith("PendingWriteBuffer::len") and z3.eq(it.as_u(x.args[0]), it.as_u(slot.ret))][0].ret)
+                             if [x for x in p.events if x.kind == "call" and x.callee.endswith("PendingWriteBuffer::len") and z3.eq(it.as_u(x.args[0]), it.as_u(slot.ret))] else False,
+                             "the submitted length is the same slot's len()")
+                reg, i = slot.args[0], slot.args[1]
+                after = p.events[idx_of(p, e):]
+                mif = [x for x in after if x.kind == "call" and x.callee.endswith("InFlightBuffers::mark_in_flight")]
+                sqp = [x for x in after if x.kind == "call" and x.callee.endswith("SubmissionQueue::push")]
+                if not sqp:
+                    continue
+                if ob.must_hold(bool(mif) and idx_of(p, mif[0]) < idx_of(p, sqp[0]), "slot marked in flight before the entry is pushed to the submission queue"):
+                    ob.must_hold(z3.eq(it.as_u(mif[0].args[0]), it.as_u(reg)), "mark_in_flight on the registry the buffer came from")
+                    ob.need(it, mif[0].pc, mif[0].args[1] == i, "mark_in_flight(i) for the submitted slot i")
+                ise = [x for x in after if x.kind == "call" and x.callee.endswith("Result::is_err") and z3.eq(it.as_u(x.args[0]), it.as_u(sqp[0].ret))]
+                muq = [x for x in after if x.kind == "call" and x.callee.endswith("InFlightBuffers::mark_unqueued")]
+                if ise and (p.status in ("return", "truncated", "backedge")):
+                    failed_push, _ = it.entails(p.pc, ise[0].ret)
+                    ok_push, _ = it.entails(p.pc, z3.Not(ise[0].ret))
+                    if failed_push:
+                        if ob.must_hold(bool(muq), "a slot whose submission entry could not be queued is marked unqueued (it is freed, not leaked)"):
+                            ob.need(it, muq[0].pc, muq[0].args[1] == i, "mark_unqueued(i) for that slot")
+                    elif ok_push:
+                        ob.must_hold(not muq or idx_of(p, muq[0]) > idx_of(p, sqp[-1]), "a queued slot is not marked unqueued")
+    ob.must_hold(pushes >= 2 and subs >= 1, "buffer registration (both I/O modes) and submission sites were reached (%d/%d)" % (pushes, subs))
+    return ob.result(it, witness="c20_inflight_buffers_own_their_bytes")
+
+
 # ============================================================================ C19: which worker owns which shard
 def c19(fns, tier, env):
     return finalize([site_shard_ownership(fns), site_coordinator_liveness(fns), site_flush_worker_requeue(fns)], env)
 
 
 def c20(fns, tier, env):
-    return finalize([site_tree_slot_store(fns), site_range_query(fns)], env)
+    return finalize([site_tree_slot_store(fns), site_range_query(fns), site_batch_write_buffers(fns)], env)
 
 
 def site_shard_ownership(fns):
@@ -2520,7 +2609,7 @@ def c01(fns, tier, env):
     out = [site_update_record(fns, "::update_record_with_ttl", False),
            site_update_record(fns, "::update_record_with_ttl_bytes", True),
            site_update_record(fns, "::replace_record_if_current", False, file_hint="src/core/store/atomic.rs", ts_tuple_local="_5", identity_local="_3",
-                              witness=[("(f)", "c07_lost_increment")] + UPDATE_WITNESSES),
+                              witness=[("(f)", "c07_lost_increment+c07_aba_same_timestamp")] + UPDATE_WITNESSES),
            site_delete(fns), kernel_resolve_timestamp(fns), site_compare_and_swap(fns), site_json_patch(fns),
            site_atomic_increment(fns), site_update_ttl(fns), site_resolve_expiry(fns), site_range_query(fns)]
     out += [site_insert_vacant(fns, "::insert_with_timestamp_and_ttl_internal"), site_insert_vacant(fns, "::insert_bytes_with_expiry"),
@@ -2614,7 +2703,7 @@ def site_cache_remove(fns):
 
 
 # ============================================================================ recovery scan: one arbitrary iteration
-def scan_iteration(fns):
+def scan_iteration(fns, panics=False):
     """The scan loop cannot be unrolled over a device, but ONE iteration can be analysed from an arbitrary state:
     start at the loop header with every local havocked and stop when the path comes back to it."""
     f = mir.find(fns, "::scan_and_rebuild_indexes", "src/core/store/recovery.rs")
@@ -2652,19 +2741,73 @@ def scan_iteration(fns):
     if last_end_local is None:
         raise mir.MirError("scan: `last_end` (end of the last owned extent) not found")
     le0 = z3.BitVec("last_end0", 64)
+    self_ = z3.Const("store", U)
+    amb_idx = store_field_index(fns, "ambiguous_legacy_markers") if panics else 0
+    amb0 = it.ctx.uf("proj__%d" % amb_idx, [U], z3.BitVecSort(64))(self_)
 
     def init(it_, st):
         st["env"][sector_local] = s0
         st["env"][total_local] = total
         st["env"][last_end_local] = le0
+        if panics:
+            st["env"]["_1"] = self_
         # loop invariant of the free-space reconstruction: everything owned so far ends at or before the scan position
         st["pc"].append(z3.ULE(le0, s0))
+        if panics:
+            # the counter of ambiguous legacy markers counts scanned blocks: counter <= sector (re-established below)
+            st["pc"].append(z3.ULE(amb0, s0))
+            # the device size is a u64 byte count, so there are at most 2^52 blocks
+            st["pc"].append(z3.ULT(total, z3.BitVecVal(1 << 52, 64)))
     accepted = discarded = replaced_n = gap_paths = 0
     ts_idx = record_field_index(fns, "timestamp")
+    pob = Ob("c17_scan_iteration_panic_free", "recovery scan, one ARBITRARY iteration on ARBITRARY block contents (every byte and every value parsed out of the device is "
+             "havocked; block slices have arbitrary length): no arithmetic-overflow panic, no out-of-range index or slice of the block buffer, no failing fixed-size "
+             "conversion on any MIR path – so no byte pattern can make the scan panic inside an iteration",
+             "one iteration from an arbitrary loop state with sector < total_sectors < 2^52 (u64 byte size) and last_end <= sector; callees (block reader, parsers, CRC) havocked – "
+             "their own panic-freedom is decided by the Kani harnesses of C17; RecordFormat::total_size <= key + value + 64 for admissible lengths (Kani: c05_extent_length_agreement); "
+             "records already indexed satisfy the size limits this scan checks before indexing", f)
+    seen = set()
     for p in it.run(init, start=header, stop=(header,)):
         ob.paths += 1
         if p.status == "truncated":
             ob.truncated += 1
+        if panics:
+            pob.paths += 1
+            # reviewed summary of the (dyn) RecordFormat::total_size: header + key + value, decided for all admissible lengths by the Kani
+            # harness c05_extent_length_agreement; records already in the index passed this scan's own size check when they were indexed
+            ax = []
+            # lengths of named byte-string constants (`const X: &[u8; N]`), from their own MIR items
+            for cname, cterm in list(it.ctx.consts.items()):
+                item = mir.CONST_ITEMS.get(cname.rsplit("::", 1)[-1])
+                cm = re.match(r"&?\[u8; (\d+)\]$", item[1]) if item else None
+                if cm:
+                    ax.append(it.len_of(cterm) == int(cm.group(1)))
+            # <[T]>::get(i) == Some(..) implies i < len <= isize::MAX
+            for e in p.events:
+                if e.kind == "call" and re.search(r"\]>::get(::<usize>)?$", e.callee) and len(e.args) == 2 and z3.is_bv(e.args[1]):
+                    ax.append(z3.Implies(it.ctx.disc(it.as_u(e.ret)) == 1, z3.ULT(e.args[1], z3.BitVecVal(1 << 63, 64))))
+            reads = [e for e in p.events if e.kind == "call" and e.callee.endswith("HashMap::read")]
+            for e in events(p, "::total_size"):
+                if len(e.args) >= 3 and z3.is_bv(e.args[1]) and z3.is_bv(e.args[2]) and z3.is_bv(e.ret):
+                    kk, vv = e.args[1], e.args[2]
+                    bounded = z3.And(z3.ULE(kk, 100 * 1024), z3.ULE(vv, 4 * 1024 * 1024))
+                    ax.append(z3.Implies(bounded, z3.ULE(e.ret, 100 * 1024 + 4 * 1024 * 1024 + 64)))
+                    if any(contains(kk, it.as_u(r.ret)) or contains(vv, it.as_u(r.ret)) for r in reads):
+                        ax.append(bounded)
+            for e in p.events:
+                if e.kind not in ("assert", "slice", "unwrap_array"):
+                    continue
+                key = (e.kind, e.callee, tuple(str(a)[:120] for a in e.args), len(e.pc))
+                if key in seen:
+                    continue
+                seen.add(key)
+                if e.kind == "assert":
+                    pob.need(it, list(e.pc) + ax, e.args[0], "no panic: " + e.callee[:90])
+                elif e.kind == "slice":
+                    base, start_, end_, blen = e.args
+                    pob.need(it, list(e.pc) + ax, z3.And(z3.ULE(start_, end_), z3.ULE(end_, blen)), "slice %s in bounds" % e.callee)
+                else:
+                    pob.need(it, list(e.pc) + ax, it.ctx.disc(it.as_u(e.args[0])) == 0, "conversion to [u8; %s] cannot fail" % e.callee)
         if p.status != "backedge":
             continue
         end = p.env.get(sector_local)
@@ -2767,6 +2910,9 @@ def scan_iteration(fns):
     ob.must_hold(accepted >= 2, "accepted-record paths (winner and loser) were reached")
     ob.must_hold(discarded >= 1 and replaced_n >= 1, "the discard and the replace paths were reached")
     ob.must_hold(gap_paths >= 2, "indexing paths with and without a gap were reached")
+    if panics:
+        pob.must_hold(len(seen) >= 10, "panic sites were reached (%d)" % len(seen))
+        return [pob.result(None, witness="c17_scan_hostile_blocks")]
     return ob.result(it, witness=[("last_end", "c05_recovery_rebuilds_free_space"), ("gap", "c05_recovery_rebuilds_free_space"), ("ceil(total_size", "c04_recovery_repairs_only_dead_blocks"), ("derived from total_size", "c04_recovery_repairs_only_dead_blocks"),
                                   ("usize>::fetch_sub", "c13_recovery_accounting"), ("u64>::fetch_sub", "c10_recovery_disk_usage"),
                                   ("discarded only", "c11_recovery_expired_winner"), ("indexed only", "c11_recovery_expired_winner"),
